@@ -1,12 +1,14 @@
 import Driver.C19
+import Driver.C20
 /-! Line-protocol driver: one operation per input line, one canonical answer per output line. -/
 
 structure St where
-  dummy : Nat := 0
+  c20 : Driver.C20.S := {}
 
 def step (st : St) (line : String) : St × String :=
   match (line.trimAscii.toString.splitOn " ").filter (· ≠ "") with
   | "c19" :: args => (st, Driver.C19.handle args)
+  | "c20" :: args => let (s, o) := Driver.C20.handle st.c20 args; ({ st with c20 := s }, o)
   | _ => (st, "bad-op")
 
 partial def loop (h : IO.FS.Stream) (out : IO.FS.Stream) (st : St) : IO Unit := do
